@@ -54,4 +54,80 @@ def real_cases(ctx):
 
 PARTS.append(Part("real", prop_real, strategy=real_cases, quick=16, thorough=240, shrink_budget=5))
 MIN_CLASSES["quick"]["real"] = 12
+
+# --- another scheduler looks at the token while a job of ours is being started -------------------
+# (token file written, job lock held, .pid file not written yet: the job is *not* finished)
+
+
+def starting_enumerate(ctx):
+    for w in (1, 2):
+        for delay in ((0.4,) if ctx.quick() else (0.1, 0.4, 1.0)):
+            for rep in range(ctx.pick(2, 4)):
+                yield {"total": 2, "w": w, "delay": delay, "rep": rep}
+
+
+def prop_starting(ctx, case):
+    import json
+    import os
+    import shutil
+    import subprocess
+    import sys
+    import time
+
+    import fasteners
+    from checks.c09 import OBSERVER_SRC
+    from vlib import real
+
+    d = ctx.scratch / "starting"
+    shutil.rmtree(d, ignore_errors=True)
+    tokdir = d / "tok.counter"
+    tokdir.mkdir(parents=True)
+    (tokdir / "token.info").write_text(str(case["total"]))
+    jd = d / "job"
+    jd.mkdir()
+    child = None
+    lock = fasteners.InterProcessLock(str(jd / "job.lock"))
+    lock.acquire()
+    try:
+        # what CounterToken.acquire writes for the job being started
+        (tokdir / "ourjob.token").write_text(f"{case['w']}\n{jd / 'job'}\n")
+        env = dict(os.environ, PYTHONPATH=real.pythonpath())
+        obs = subprocess.Popen([sys.executable, "-W", "ignore", "-c", OBSERVER_SRC, str(tokdir), str(case["total"]), "6"], env=env, stdout=subprocess.PIPE, stderr=subprocess.PIPE, text=True)
+        line = obs.stdout.readline()
+        time.sleep(case["delay"])
+        # the start completes: process running, pid file written, job lock handed over to the job
+        child = subprocess.Popen(["sleep", "3600"], start_new_session=True)
+        (jd / "job.pid").write_text(json.dumps({"type": "local", "pid": child.pid}))
+        time.sleep(0.3)
+        still_there = (tokdir / "ourjob.token").exists()
+        (tokdir / "go-now").touch()
+        # the observer stops waiting when asked (it waits for `go` and for the files to vanish: give it `go`
+        # only after our job has ended, at the very end)
+        if not still_there:
+            ctx.violation(
+                "token-file-of-starting-job-removed",
+                f"another scheduler opened the token while our job (holding {case['w']} of {case['total']}) was being started - token file written, job lock held, .pid file not yet written - and removed its token file although the job is alive: the amount can be handed out a second time (observer said {line.strip()!r})",
+            )
+        ctx.record(True, ["starting-job-observed"], sample={"case": case, "observer_open": line.strip(), "token_file_kept": still_there})
+    finally:
+        try:
+            lock.release()
+        except Exception:
+            pass
+        if child is not None:
+            child.kill()
+            child.wait()
+        try:
+            (tokdir / "go").touch()
+            obs.wait(15)
+        except Exception:
+            try:
+                obs.kill()
+            except Exception:
+                pass
+        shutil.rmtree(d, ignore_errors=True)
+
+
+PARTS.append(Part("job-being-started", prop_starting, enumerate=starting_enumerate))
+MIN_CLASSES["quick"]["starting-job-observed"] = 4
 TIMEOUT = {"quick": 900, "thorough": 5400}
